@@ -404,6 +404,9 @@ func vpRestart(maxN int) {
 		// of the log bounded by the durable term
 		k.add(hc >= s)
 		k.add(hc <= s+n)
+		// a snapshot is taken of applied entries, whose commit index was
+		// persisted before they were handed out
+		k.add(hc >= ms.snapshot.GetMetadata().GetIndex())
 		for _, e := range ms.ents {
 			k.add(e.GetTerm() <= ht)
 		}
